@@ -109,6 +109,10 @@ async def replay(d: MailDriver, states, drift):
         elif act == "Append":
             await d.append(s, ev["mbox"], flags=list(ev["flags"]), mid=ev["msgid"])
             w.next_msg_id = max(w.next_msg_id, ev["msgid"] + 1)
+        elif act == "Restart":
+            await d.restart()
+            for t in sess:
+                await d.open(t)
         elif act in ("Copy", "Move"):
             await d.copy(s, _set(ev), ev["mbox"], uid=ev["uid"], move=(act == "Move"))
         else:
@@ -118,7 +122,7 @@ async def replay(d: MailDriver, states, drift):
         got = d.events[-1]
         where = f"step {idx} {act} (trace line {len(d.events)})"
         # outcome
-        if act not in ("Deliver", "Resync") and got["status"] != ev["status"]:
+        if act not in ("Deliver", "Resync", "Restart") and got["status"] != ev["status"]:
             drift.append({"action": act, "field": "status",
                           "detail": f"{where}: model {ev['status']} impl {got['status']} ({got.get('text', '')})"})
             diverged = True
